@@ -83,6 +83,19 @@ def ob_event_ok(outcome: int, throttled: bool, limited: bool, payload: int, auth
     return "ok"
 
 
+class _RacingEnv:
+    """the writer thread gets to run right after a read transaction has taken its snapshot"""
+
+    def __init__(self, env, store):
+        self.env, self.store = env, store
+
+    def begin(self, **kw):
+        txn = self.env.begin(**kw)
+        if not kw.get("write"):
+            self.store.run_writer(self.env)
+        return txn
+
+
 def _drive(coro):
     try:
         coro.send(None)
@@ -97,8 +110,8 @@ KNDS = (1, 0, 5, 20000, 30000, 65535, 4294967296, -1)
 
 @obligation(funcs=["storage.kv.LMDBStorage.add_event", "storage.kv.WriterThread.run", "storage.kv.encode_event",
                    "storage.kv.Index.write"],
-            timeout=(450, 1500), params=range(3),
-            bounds="PARAM 2: the same event submitted twice BEFORE the writer thread ran; PARAM 0: fresh event with created_at from {1, 1.7e9, 2^32-1, 2^32, 2^64, -1}, kind from {1,0,5,20000,30000,"
+            timeout=(450, 1500), params=range(4),
+            bounds="PARAM 3: second submission while the first is queued and the writer thread commits it exactly after the duplicate lookup opened its read transaction; PARAM 2: the same event submitted twice BEFORE the writer thread ran; PARAM 0: fresh event with created_at from {1, 1.7e9, 2^32-1, 2^32, 2^64, -1}, kind from {1,0,5,20000,30000,"
                    "65535,2^32,-1}, <=1 tag from the 10 general shapes, by symbolic selectors (the validator stub accepts: these "
                    "values pass is_signed); PARAM 1: the same event submitted twice")
 def ob_kv_ack(tsel: int, ksel: int, g: List[int], can: bool) -> str:
@@ -121,7 +134,9 @@ def ob_kv_ack(tsel: int, ksel: int, g: List[int], can: bool) -> str:
                content="c", sig=W.SIG)
     env = W.new_env()
     store.db = env
-    rounds = 2 if PARAM in (1, 2) else 1
+    rounds = 2 if PARAM in (1, 2, 3) else 1
+    if PARAM == 3:
+        store.db = _RacingEnv(env, store)
     acks = []
     for r in range(rounds):
         try:
@@ -129,7 +144,7 @@ def ob_kv_ack(tsel: int, ksel: int, g: List[int], can: bool) -> str:
             acks.append(bool(changed))
         except (StorageError, AuthenticationError):
             acks.append(None)
-        if PARAM != 2:
+        if PARAM not in (2, 3):
             store.run_writer(env)
     store.run_writer(env)
     row = dict(evj)
@@ -148,7 +163,7 @@ def ob_kv_ack(tsel: int, ksel: int, g: List[int], can: bool) -> str:
             evj["created_at"], evj["kind"], evj["tags"])
     if effects.is_ephemeral(row) and stored:
         return "ephemeral event stored"
-    if PARAM in (1, 2):
+    if PARAM in (1, 2, 3):
         if acks[1]:
             return "resubmission of a stored event acknowledged with OK true"
         if len(broadcasts) != 1:
